@@ -45,14 +45,15 @@ CONFIGS = {
     "ov-outer": [["ov", 0, 100], ["ov", 0, 1]],          # an override with the value the variable has anyway
     "ov-dup": [["ov", 0, 1], ["ov", 0, 1], ["ov", 1, 101]],
 }
-LEAN_MODULES = ["AsynqModel.Theorems.C06c"]
+LEAN_MODULES = ["AsynqModel.Theorems.C06c", "AsynqModel.Theorems.C06w"]
 THEOREMS = ["C06c_spec_partial", "C06c_spec_holds_repaired", "C06c_enter_leak_counterexample", "C06c_enter_leak_reorders_counterexample",
             "C06c_suspend_pauses_all_in_reverse_entry_order", "C06c_pause_error_fails_task",
             "C06c_nonasync_suspension_fails_task", "C06c_continue_resumes_all_in_entry_order", "C06c_exit_pauses_iff_resumed",
             "C06c_exit_keeps_the_others", "C06c_reachable", "C06c_values_follow_innermost_override",
             "C06c_paused_task_has_outer_values", "C06c_all_closed_restored", "C06c_registered_are_the_open_blocks",
             "C06c_alternate", "C06c_model_alternates",
-            "C06c_exit_not_entered", "C06c_enter_twice_keeps_place", "C06c_values_need_lifo"]   # in namespace AsynqModel.Contexts
+            "C06c_exit_not_entered", "C06c_enter_twice_keeps_place", "C06c_values_need_lifo",
+            "C06w_alternate_needs_no_raise"]   # in namespace AsynqModel.Contexts
 RULE = ("histories of context operations (enter / exit via manual __enter__/__exit__ in ANY order, suspend = yield of a real batch "
         "item, continue, finish ok/error; operations during the suspension run in the flush body, after the end at top level) on ONE "
         "real task over 1-4 contexts (plain AsyncContext with pause()/resume() raising at scripted call numbers, "
@@ -66,6 +67,14 @@ TRUSTED = ["hand-written Lean model AsynqModel.Contexts (contexts.py, scoped_val
 ASSUMPTIONS = ["ctxhist: one task; hooks fail with Exceptions at scripted call numbers; scoped-value overrides never raise"]
 CORE_CONFIGS = ["plain2", "ov-same", "ov-diff", "na-plain", "praise1", "rraise2"]
 NVARS = 2
+
+
+
+def _let_timeouts_through(e):
+    """`except BaseException` around code of the implementation must not swallow the worker's per-case watchdog
+    (worker.CaseTimeout): a hang is reported as a hang (and the worker restarted), not as an outcome `raised-CaseTimeout`"""
+    if type(e).__name__ == "CaseTimeout":
+        raise e
 
 
 def alphabet(nctx):
@@ -205,6 +214,114 @@ def cases(tier, rng, focus=None):
 
 
 # ---------------------------------------------------------------------------------------------------------------------
+# mode `ctxwith` (second audit, item 2): the first `blocks` contexts are REAL with statements of the task's generator, so
+# failing the task (`_accept_error` -> `_computed` -> generator.close()) and a return / an exception of the body run their
+# __exit__s the way the interpreter does; model: AsynqModel/Lib/ContextsWith.lean, theorems: Theorems/C06w.lean
+WITH_LEAN_MODULES = ["AsynqModel.Theorems.C06w"]
+WITH_THEOREMS = ["C06w_close_escape_counterexample", "C06w_no_open_block_no_escape", "C06w_unwind_only_unregisters",
+                 "C06w_acceptErrorW_swallows", "C06w_repaired_never_escapes"]      # in namespace AsynqModel.Contexts
+WITH_RULE = ("family ctxwith: histories over 1-3 REAL nested with-blocks of the task's generator (plain contexts whose pause()/resume() "
+             "raise at scripted call numbers, overrides, NonAsyncContext) plus manually operated extra contexts: enter / leave the "
+             "innermost block, suspend, continue, finish ok/error inside the blocks; generator.close() and the unwinding of the body "
+             "run the __exit__s; replayed in AsynqModel.Contexts.runW (Lib/ContextsWith.lean); judged: no exception leaves the "
+             "scheduler at a suspension / continuation, scheduler clean (tasks, active task, batches), next computation works")
+WITH_FIXED = [
+    # second audit, work/closeraise.py: resume of the outer block raises at the continuation, pause of the inner one raises
+    # while generator.close() leaves the blocks
+    ([["plain", [2], []], ["plain", [], [2]]], 2, [["enter", 0], ["enter", 1], ["suspend"], ["continue"]]),
+    ([["plain", [], [1]], ["plain", [], [2]]], 2, [["enter", 0], ["enter", 1], ["suspend"], ["continue"]]),
+    ([["plain", [], [2]], ["plain", [2], []]], 2, [["enter", 0], ["enter", 1], ["suspend"], ["continue"]]),
+    ([["plain", [2], [2]]], 1, [["enter", 0], ["suspend"], ["continue"]]),
+    ([["plain", [2], []], ["ov", 0, 5], ["plain", [], [2]]], 3, [["enter", 0], ["enter", 1], ["enter", 2], ["suspend"], ["continue"]]),
+    ([["plain", [], [1]], ["plain", [], [1]]], 2, [["enter", 0], ["enter", 1], ["finish", 1]]),
+    ([["plain", [], [1]], ["plain", [], []]], 2, [["enter", 0], ["enter", 1], ["finish", 0]]),
+    ([["plain", [], []], ["plain", [], [1]]], 2, [["enter", 0], ["enter", 1], ["exit", 1], ["suspend"], ["continue"], ["exit", 0]]),
+    ([["plain", [1], []], ["plain", [], []]], 2, [["enter", 0], ["enter", 1], ["suspend"]]),
+    ([["plain", [], [1]], ["plain", [1], []]], 2, [["enter", 0], ["enter", 1], ["suspend"]]),
+    ([["na"], ["plain", [], [2]]], 2, [["enter", 0], ["enter", 1], ["suspend"], ["continue"]]),
+]
+
+
+def mk_with(ctxs, nb, ops, origin):
+    return {"special": "ctxwith", "ctxs": ctxs, "blocks": nb, "ops": ops, "origin": origin}
+
+
+def random_with(rng):
+    nb = rng.choice([1, 2, 2, 2, 3])
+    nx = rng.choice([0, 0, 1])
+    ctxs = []
+    hot = rng.random() < 0.6          # scripts aimed at the second resume / second pause of a block
+    for i in range(nb + nx):
+        k = rng.random()
+        if k < 0.7 or (i < nb and hot):
+            if hot:
+                rr = [2] if rng.random() < 0.45 else []
+                pr = [2] if rng.random() < 0.45 else ([1] if rng.random() < 0.1 else [])
+            else:
+                rr = sorted(set(rng.randint(1, 3) for _ in range(rng.choice([0, 0, 1, 1, 2]))))
+                pr = sorted(set(rng.randint(1, 3) for _ in range(rng.choice([0, 0, 1, 1, 2]))))
+            ctxs.append(["plain", rr, pr])
+        elif k < 0.93:
+            ctxs.append(["ov", rng.randint(0, NVARS - 1), rng.randint(1, 9)])
+        else:
+            ctxs.append(["na"])
+    ops, depth, ph = [], 0, "running"
+    for _ in range(rng.randint(3, 12)):
+        ch = []
+        if ph == "running":
+            if depth < nb:
+                ch += [["enter", depth]] * 4
+            if depth > 0:
+                ch += [["exit", depth - 1]]
+            ch += [["suspend"]] * (3 if depth else 1)
+            if rng.random() < 0.1:
+                ch += [["finish", rng.randint(0, 1)]]
+        elif ph == "suspended":
+            ch += [["continue"]] * 4
+        if nx and rng.random() < 0.3:
+            ch += [["enter", nb], ["exit", nb]]
+        if rng.random() < 0.05:
+            ch += [list(o) for o in alphabet(nb + nx)]          # anything, also what will merely be skipped
+        if not ch:
+            break
+        op = list(rng.choice(ch))
+        ops.append(op)
+        if ph == "running" and op == ["enter", depth] and depth < nb:
+            depth += 1
+        elif ph == "running" and depth and op == ["exit", depth - 1]:
+            depth -= 1
+        elif op[0] == "suspend" and ph == "running":
+            ph = "suspended"
+        elif op[0] == "continue" and ph == "suspended":
+            ph = "running"
+        elif op[0] == "finish" and ph == "running":
+            ph = "done"
+    return mk_with(ctxs, nb, ops, "random")
+
+
+def with_cases(tier, rng):
+    out = [mk_with(c, nb, ops, "fixed") for c, nb, ops in WITH_FIXED]
+    out += [random_with(rng) for _ in range(300 if tier == "quick" else 8000)]
+    return out
+
+
+def with_signature(case, v):
+    """one root cause whatever the history: an __exit__ that raises while generator.close() leaves the blocks of a task that a
+    raising resume() has just failed"""
+    if v.get("corr") != "ok" or v.get("specm") != v.get("spec"):
+        # a recorded finding may only explain a run in which the Lean model shows the very same behaviour
+        return v["spec"] + "/model-disagrees"
+    if v["spec"] == "fail:scheduler-retains-pending-batch":
+        return STALE_BATCH_SIGNATURE
+    return v["spec"]
+
+
+# the OPEN C08 finding (known_findings.json): a task failed while suspended by a context error leaves the batch of the item it
+# was awaiting in TaskScheduler._batches
+STALE_BATCH_SIGNATURE = "fail:scheduler-retains-pending-batch/program-with-NonAsyncContext"
+
+
+# ---------------------------------------------------------------------------------------------------------------------
 def sx(x):
     if isinstance(x, (list, tuple)):
         return "(" + " ".join(sx(y) for y in x) + ")"
@@ -234,6 +351,7 @@ def run(case):
 
     ctxdefs = case["ctxs"]
     ops = [list(o) for o in case["ops"]]
+    nb = case.get("blocks", 0) if case.get("special") == "ctxwith" else 0
     nvars = max([NVARS] + [c[1] + 1 for c in ctxdefs if c[0] == "ov"])
     build = os.environ.get("ASYNQ_VERIF_BUILD", "py")
     typed = 1 if type(contexts.AsyncContext.__dict__.get("_active_task")).__name__ == "getset_descriptor" else 0
@@ -291,7 +409,7 @@ def run(case):
             return "keyError"
         return "other-" + type(e).__name__
 
-    st = {"phase": "running", "pos": 0, "pending": None, "task": None}
+    st = {"phase": "running", "pos": 0, "pending": None, "task": None, "depth": 0}
 
     def hook_failed():
         t = st["task"]
@@ -326,7 +444,15 @@ def run(case):
         while st["pos"] < len(ops):
             op = ops[st["pos"]]
             k = op[0]
-            if k in ("enter", "exit"):
+            if nb and k in ("enter", "exit") and op[1] < nb and op[1] < len(objs):
+                # a with statement of the task's body (mode ctxwith): only while the task runs and only in the fixed
+                # nesting order; executed by the body itself (seq), everything else is recorded as skipped
+                if st["phase"] == "running" and ((k == "enter" and op[1] == st["depth"]) or (k == "exit" and op[1] == st["depth"] - 1)):
+                    return op
+                snapshot(op, "skip")
+            elif k in ("enter", "exit") and op[1] >= len(objs):
+                snapshot(op, "skip")
+            elif k in ("enter", "exit"):
                 exc = None
                 try:
                     if k == "enter":
@@ -337,6 +463,7 @@ def run(case):
                     else:
                         objs[op[1]].__exit__(None, None, None)
                 except BaseException as e:
+                    _let_timeouts_through(e)
                     exc = e
                 snapshot(op, token(exc))
             elif (k == "suspend" and st["phase"] == "running") or (k == "continue" and st["phase"] == "suspended") or \
@@ -392,6 +519,44 @@ def run(case):
             close_pending()                    # the continue operation is complete: the task runs again
             st["phase"] = "running"
 
+    def seq(depth):
+        """mode ctxwith: the part of the body at nesting depth `depth`, with REAL with statements (one generator frame per
+        block, joined by `yield from`): returns "exit" when control leaves the enclosing block normally, "return" when the
+        body returns from inside the blocks; exceptions (task error, a raising __enter__/__exit__, the GeneratorExit of
+        generator.close()) travel through the with statements as the interpreter makes them"""
+        while True:
+            st["depth"] = depth
+            op = simple()
+            if op is None:
+                op = ["finish", 1]
+            else:
+                st["pos"] += 1
+            st["pending"] = op
+            if op[0] == "enter":
+                with objs[op[1]]:
+                    close_pending()            # the block is entered
+                    r = yield from seq(depth + 1)
+                    if r == "return":
+                        return r
+                close_pending()                # the block is left (normally)
+            elif op[0] == "exit":
+                return "exit"
+            elif op[0] == "finish":
+                st["phase"] = "done"
+                if op[1]:
+                    return "return"
+                raise task_err
+            else:
+                st["phase"] = "suspended"
+                yield I()                      # (GeneratorExit is NOT caught: generator.close() runs the __exit__s)
+                close_pending()
+                st["phase"] = "running"
+
+    @asynq.asynq()
+    def body_with():
+        yield from seq(0)
+        return 7
+
     @asynq.asynq()
     def other():
         return (yield I()) + 1
@@ -399,16 +564,22 @@ def run(case):
     asynq.scheduler.reset()
     sched = asynq.scheduler.get_scheduler()
     escaped = None
-    st["task"] = body.asynq()
+    st["task"] = (body_with if nb else body).asynq()
     try:
         st["task"].value()
     except BaseException as e:
+        _let_timeouts_through(e)
         escaped = e
     st["phase"] = "done"
+    t = st["task"]
+    if nb and st["pending"] is not None:
+        # the operation during which value() returned: what left the scheduler loop although it is not the task's outcome
+        op, st["pending"] = st["pending"], None
+        foreign = escaped is not None and not (t.is_computed() and t.error() is escaped)
+        snapshot(op, token(escaped) if (foreign and op[0] in ("suspend", "continue")) else "none")
     close_pending()
     simple()
     final_status = status()
-    t = st["task"]
     if escaped is None:
         esc = "none"
     elif t.is_computed() and t.error() is escaped:
@@ -416,6 +587,8 @@ def run(case):
     else:
         esc = token(escaped)
     clean = 1 if (len(sched._tasks) == 0 and sched.active_task is None) else 0
+    nbatches = len(sched._batches)
+    nlive = sum(1 for b in sched._batches if b.items and not b.is_flushed())
     try:
         nxt = 1 if other() == 2 else 0
     except BaseException:
@@ -430,13 +603,25 @@ def run(case):
 
     lines = ["(case ctxhist %d %s %s %s)" % (case["id"], sx(["typed", typed]), sx(["ctxs"] + [ctx_sx(c) for c in ctxdefs]),
                                             sx(["vars", nvars]))]
+    if nb:
+        lines = ["(case ctxwith %d %s %s %s %s)" % (case["id"], sx(["typed", typed]), sx(["ctxs"] + [ctx_sx(c) for c in ctxdefs]),
+                                                    sx(["vars", nvars]), sx(["blocks", nb]))]
     lines += [sx(o) for o in obs]
-    lines.append(sx(["final", ["status", final_status], ["escaped", esc], ["clean", clean], ["next", nxt]]))
+    if nb:
+        lines.append(sx(["final", ["status", final_status], ["escaped", esc], ["clean", clean], ["batches", nbatches, nlive], ["next", nxt]]))
+    else:
+        lines.append(sx(["final", ["status", final_status], ["escaped", esc], ["clean", clean], ["next", nxt]]))
     lines.append("(end)")
 
     kinds = sorted(set(c[0] for c in ctxdefs))
     nsusp = sum(1 for o in obs if o[1][0] == "suspend" and o[3][1] != "skip")
-    feats = ["ctxhist", "ctxhist-ops<=%d" % next(b for b in (3, 5, 10, 25, 10 ** 9) if len(obs) <= b),
+    if nb:
+        feats0 = ["ctxwith", "ctxwith-blocks=%d" % nb]
+        if esc not in ("none", "task-error"):
+            feats0.append("ctxwith-has=exception-leaving-the-scheduler")
+    else:
+        feats0 = []
+    feats = feats0 + ["ctxhist", "ctxhist-ops<=%d" % next(b for b in (3, 5, 10, 25, 10 ** 9) if len(obs) <= b),
              "ctxhist-kinds=" + "+".join(kinds), "ctxhist-suspensions<=%d" % next(b for b in (0, 1, 3, 10 ** 9) if nsusp <= b),
              "ctxhist-build=" + build]
     if any(c[0] == "plain" and (c[1] or c[2]) for c in ctxdefs):
@@ -457,6 +642,16 @@ def run(case):
 
 
 def shrink(case):
+    if case.get("special") == "ctxwith":
+        ops = case["ops"]
+        for i in range(len(ops)):
+            yield dict(case, ops=ops[:i] + ops[i + 1:])
+        for i, c in enumerate(case["ctxs"]):
+            if c[0] == "plain" and (c[1] or c[2]):
+                for rr, pr in ((c[1][1:], c[2]), (c[1], c[2][1:])):
+                    if (rr, pr) != (c[1], c[2]):
+                        yield dict(case, ctxs=case["ctxs"][:i] + [["plain", rr, pr]] + case["ctxs"][i + 1:])
+        return
     ops = case["ops"]
     for i in range(len(ops)):
         yield dict(case, ops=ops[:i] + ops[i + 1:])
@@ -473,6 +668,10 @@ def shrink(case):
 
 
 def neighbours(case, rng):
+    if case.get("special") == "ctxwith":
+        for _ in range(32):
+            yield random_with(rng)
+        return
     ctxs = case["ctxs"]
     al = alphabet(len(ctxs))
     ops = case["ops"]
